@@ -219,7 +219,13 @@ class TokenParser(Parser):
                 tokens.consume()
                 break
 
-            field = self._parse_field(tokens, {f.name for f in fields})
+            # The members of an anonymous struct or union are fields of this structure, too
+            field_names = {f.name for f in fields}
+            for f in fields:
+                if f.name is None and hasattr(f.type, "lookup"):
+                    field_names.update(f.type.lookup)
+
+            field = self._parse_field(tokens, field_names)
             fields.append(field)
 
         if register:
